@@ -96,8 +96,14 @@ func Index(a Object) (Int, error) {
 			return 0, err
 		}
 
-		if res, ok := A.(Int); ok {
+		switch res := A.(type) {
+		case Int:
 			return res, nil
+		case Bool, *BigInt:
+			// an int in another representation: a bool, or a value
+			// beyond the machine word (an OverflowError, which the
+			// callers turn into IndexError or clamp)
+			return Index(res)
 		}
 
 		return 0, ExceptionNewf(TypeError, "__index__ returned non-int: (type %s)", A.Type().Name)
